@@ -245,6 +245,9 @@ def campaign_model(ck: Check, n: int) -> None:
                 if st == "v1" and semgen.has_discriminator(doc) and semgen.disc_const_tag(doc):
                     cc.hit("known:v1_const_tag_member")  # D40: Field(..., const=True) written after stage 1
                     continue
+                if st == "v1" and semgen.allof_required_const(doc):
+                    cc.hit("known:v1_const_member_required_by_allOf")  # D41: the same `Field(..., const=True)`
+                    continue
                 ck.disagree(cc, {"doc": doc, "instance": x, "style": st, "routing": r}, tri, "accept" if ok else "reject")
             elif len(cc.samples) < 2 and not ok:
                 cc.samples.append({"doc": doc, "instance": x, "style": st, "routing": r, "verdict": tri})
@@ -260,6 +263,8 @@ def causes_for(doc: dict, inst: Any, style: str, oracle: str = "valid_rejected")
         return "v1_union_left_to_right"
     if style == "v1" and semgen.has_discriminator(doc) and semgen.disc_const_tag(doc):
         return "v1_const_tag_member"
+    if style == "v1" and semgen.allof_required_const(doc):
+        return "v1_const_member_required_by_allOf"
     if comma_pattern_in_union(doc):
         return "comma_in_pattern_in_union"
     if nonintegral_exclusive_on_integer(doc):
@@ -509,7 +514,7 @@ def campaign_focused(ck: Check) -> None:
         if label.startswith("discriminator"):
             for t in (("v2", "contype", "openapi"), ("v1", "contype", "openapi")):
                 oracle_doc(ck, camp, doc, t, insts)
-        if label not in ("alias", "discriminator_multikey", "discriminator_implicit"):
+        if label not in ("alias", "discriminator_multikey", "discriminator_implicit") and not label.startswith("allOf_required_"):
             oracle_doc(ck, camp, doc, ("dataclasses.dataclass",), insts)
         oracle_doc(ck, camp, doc, ("typing.TypedDict",), insts)
     camp.wall_s = time.time() - t0
